@@ -85,21 +85,24 @@ def build_rx():
     e = os.path.join(VERIF, 'engines'); r = os.path.join(VERIF, 'ref')
     return build_single('rx', os.path.join(e, 'rx_main.cpp'), [os.path.join(e, 'jsonw.hpp'), os.path.join(r, 'regex.hpp'), os.path.join(r, 'lr1.hpp')], RX_FLAGS)
 
+BIG_DEFS = ['-DREF_MAXT=12', '-DREF_MAXR=24', '-DREF_MAXNT=8', '-DREF_MAXL=6']
+
 def build_gram(setname):
+    flags = GRAM_FLAGS + (BIG_DEFS if setname == 'big' else [])
     srcs = [os.path.join(VERIF, 'engines', f) for f in ('gram_frame.hpp', 'gram_main.cpp', 'jsonw.hpp')] + [os.path.join(VERIF, 'ref', 'lr1.hpp'), os.path.join(VERIF, 'gen', 'gram_frames.py')]
-    d = build_dir('gram_' + setname, srcs, GRAM_FLAGS)
+    d = build_dir('gram_' + setname, srcs, flags)
     exe = os.path.join(d, 'gram')
     if os.path.exists(exe): return exe
     tmp = d + '.tmp%d' % os.getpid()
     shutil.rmtree(tmp, ignore_errors=True); os.makedirs(tmp)
-    ntus = max(NCPU * 2, 8)
+    ntus = 4 if setname == 'big' else max(NCPU * 2, 8)
     r = sh([sys.executable, os.path.join(VERIF, 'gen', 'gram_frames.py'), setname, tmp, str(ntus)])
     if r.returncode != 0: harness_error('frame generation failed: ' + r.stderr)
     jobs = []
     for k in range(ntus):
         src = os.path.join(tmp, 'frames_%02d.cpp' % k)
-        jobs.append((['g++'] + GRAM_FLAGS + ['-c', src, '-o', src[:-4] + '.o'], src + '.log'))
-    jobs.append((['g++'] + [f if f != '-O1' else '-O2' for f in GRAM_FLAGS] + ['-c', os.path.join(VERIF, 'engines', 'gram_main.cpp'), '-o', os.path.join(tmp, 'gram_main.o')], os.path.join(tmp, 'main.log')))
+        jobs.append((['g++'] + flags + ['-c', src, '-o', src[:-4] + '.o'], src + '.log'))
+    jobs.append((['g++'] + [f if f != '-O1' else '-O2' for f in flags] + ['-c', os.path.join(VERIF, 'engines', 'gram_main.cpp'), '-o', os.path.join(tmp, 'gram_main.o')], os.path.join(tmp, 'main.log')))
     failed = compile_many(jobs)
     if failed:
         msg = open(failed[0]).read()[-3000:]
